@@ -1007,6 +1007,22 @@ pub fn parse_ir(text: &str) -> Result<Vec<(String, IrNode)>, String> {
     Ok(out)
 }
 
+/// the WASM module the compiler emits for these sources (`Compiler::emit_wasm_file`)
+pub fn emitted_wasm(sources: &[(String, String)], compile_time: &[GV]) -> Result<Vec<u8>, String> {
+    let mut c = yara_x::Compiler::new();
+    define_globals(&mut c, compile_time);
+    for (ns, src) in sources {
+        c.new_namespace(ns);
+        c.add_source(src.as_str()).map_err(|e| e.to_string())?;
+    }
+    let dir = std::env::temp_dir().join(format!("c02-wasm-{}", std::process::id()));
+    std::fs::create_dir_all(&dir).map_err(|e| e.to_string())?;
+    let path = dir.join("rules.wasm");
+    c.emit_wasm_file(&path).map_err(|e| e.to_string())?;
+    let bytes = std::fs::read(&path).map_err(|e| e.to_string())?;
+    let _ = std::fs::remove_file(&path); let _ = std::fs::remove_dir(&dir);
+    Ok(bytes)
+}
 /// one add_source call per rule, or one per namespace block
 pub fn sources_of(rules: &[RuleSpec], per_rule: bool) -> Vec<(String, String)> {
     let mut out: Vec<(String, String)> = vec![];
@@ -1029,13 +1045,22 @@ pub fn with_warmup(sources: &[(String, String)]) -> Vec<(String, String)> {
 pub fn run_impl(sources: &[(String, String)], compile_time: &[GV], globals: &[GV], data: &[u8]) -> Outcome {
     run_impl_ir(sources, compile_time, globals, data).0
 }
+/// what [run_impl_ir] learns about the compilation besides the verdicts
+#[derive(Default, Clone, Debug)]
+pub struct CompileInfo {
+    /// the IR dump (Compiler::set_ir_writer)
+    pub ir: String,
+    /// per rule: the PatternId of each declared pattern (hook Rules::verif_c02_pattern_ids)
+    pub pattern_ids: Vec<Vec<usize>>,
+}
 /// also returns the IR dump of the very compilation whose rules are scanned
-pub fn run_impl_ir(sources: &[(String, String)], compile_time: &[GV], globals: &[GV], data: &[u8]) -> (Outcome, String) {
+pub fn run_impl_ir(sources: &[(String, String)], compile_time: &[GV], globals: &[GV], data: &[u8]) -> (Outcome, CompileInfo) {
     let (rules, ir) = match catch(AssertUnwindSafe(|| compile_with_ir(sources, compile_time))) {
-        Err(p) => return (Outcome::Panic(format!("compile: {}", p)), String::new()),
-        Ok(Err(e)) => return (Outcome::Rejected(e), String::new()),
+        Err(p) => return (Outcome::Panic(format!("compile: {}", p)), CompileInfo::default()),
+        Ok(Err(e)) => return (Outcome::Rejected(e), CompileInfo::default()),
         Ok(Ok(r)) => r,
     };
+    let info = CompileInfo { ir, pattern_ids: rules.verif_c02_pattern_ids() };
     let o = match catch(AssertUnwindSafe(|| {
         let mut s = yara_x::Scanner::new(&rules);
         s.set_timeout(std::time::Duration::from_secs(20));
@@ -1050,7 +1075,7 @@ pub fn run_impl_ir(sources: &[(String, String)], compile_time: &[GV], globals: &
         Ok(Err(e)) => Outcome::Panic(format!("scan error: {}", e)),
         Ok(Ok((all, public))) => Outcome::Ok { all, public },
     };
-    (o, ir)
+    (o, info)
 }
 pub fn gv_json(g: &[GV]) -> String {
     let v: Vec<String> = GLOBALS.iter().zip(g).map(|((n, _), v)| format!("{}:{}", json_str(n), match v { GV::I(z) => format!("{}", z), GV::B(b) => format!("{}", b), GV::S(s) => json_str(&String::from_utf8_lossy(s)) })).collect();
